@@ -200,8 +200,8 @@ def run_case(case: dict) -> dict:
         excl = set(case.get("exclude") or [])
         probe(res, "stateful_body" if case.get("stateful") else "stateless_body")
         tw = Twin([wa, wb])
-        if "crosstalk" in excl and (has_known_structure(wa, tw.obs[0], True)
-                                    or has_known_structure(wb, tw.obs[1], True)):
+        if "crosstalk" in excl and (has_known_structure(wa, tw.obs[0], True, un, case["inputs"])
+                                    or has_known_structure(wb, tw.obs[1], True, un, case["inputs"])):
             res["status"] = "excluded"
             res["excluded_by"] = "crosstalk"
             return res
